@@ -1160,6 +1160,65 @@ func (fx *FnExec) zeroArray(st *State, et types.Type) string {
 	return n
 }
 
+// frameCheck emits the frame obligation for a write: the written object was allocated during
+// this call, or the write is covered by the function's modifies clause.
+func (fx *FnExec) frameCheck(st *State, in ssa.Instruction, ref string, loc *Loc) {
+	if fx.fc == nil || fx.entry == nil {
+		return
+	}
+	if strings.HasPrefix(ref, "(- ") {
+		// package-level variable
+		ok := "false"
+		if fx.fn.Name() == "init" {
+			ok = "true"
+		}
+		fx.emit(st, &Obligation{Kind: "frame", Name: fx.siteName(in) + ".global", Props: []string{"C14", "C15"}, Goal: ok})
+		return
+	}
+	alts := []string{"(> " + ref + " " + fx.entry.alloc + ")"}
+	for _, m := range fx.fc.Modifies {
+		if _, isGhost := fx.eng.ghosts[m]; isGhost {
+			continue
+		}
+		parts := strings.Split(m, ".")
+		pv, ok := fx.params[parts[0]]
+		if !ok {
+			continue
+		}
+		c := "(= " + ref + " " + pv.T + ")"
+		if len(parts) == 2 && loc != nil {
+			// the written field must be the declared one: find the top-level field of the access path
+			top := loc
+			for top.Kind == LField && top.Parent != nil && top.Parent.Kind == LField {
+				top = top.Parent
+			}
+			if top.Kind != LField || top.Parent == nil || top.Parent.Kind != LDeref {
+				continue
+			}
+			stt, isS := top.Parent.ET.Underlying().(*types.Struct)
+			if !isS || stt.Field(top.Field).Name() != parts[1] {
+				continue
+			}
+		}
+		alts = append(alts, c)
+	}
+	fx.emit(st, &Obligation{Kind: "frame", Name: fx.siteName(in), Props: []string{"C14", "C15"}, Goal: or(alts...)})
+}
+
+func locRoot(l *Loc) (string, bool) {
+	r := l
+	for r.Kind == LField {
+		r = r.Parent
+	}
+	switch r.Kind {
+	case LDeref:
+		return r.Ptr.T, true
+	case LIndex:
+		return "(sl_arr " + r.Slice.T + ")", true
+	}
+	return "", false
+}
+
 func (fx *FnExec) newRef(st *State) string {
 	n := fx.eng.fresh(st, "ref", SInt)
 	st.add("(assert (= " + n + " (+ " + st.alloc + " 1)))")
@@ -1426,6 +1485,9 @@ func (fx *FnExec) step(st *State, in ssa.Instruction) {
 		if _, isG := in.Addr.(*ssa.Global); !isG && l.Kind == LDeref {
 			fx.safety(st, "nil", fx.siteName(in), "(not (= "+l.Ptr.T+" 0))")
 		}
+		if ref, ok := locRoot(l); ok && !fx.eng.freshIn(in.Addr, func(*ssa.BasicBlock) bool { return true }, map[ssa.Value]bool{}) {
+			fx.frameCheck(st, in, ref, l)
+		}
 		fx.storeAt(st, l, fx.val(st, in.Val))
 	case *ssa.BinOp:
 		a, b := fx.val(st, in.X), fx.val(st, in.Y)
@@ -1601,6 +1663,9 @@ func (fx *FnExec) doMapUpdate(st *State, in *ssa.MapUpdate) {
 	k := fx.val(st, in.Key)
 	v := fx.val(st, in.Value)
 	fx.safety(st, "nil", fx.siteName(in), "(> "+m.T+" 0)")
+	if !fx.eng.freshIn(in.Map, func(*ssa.BasicBlock) bool { return true }, map[ssa.Value]bool{}) {
+		fx.frameCheck(st, in, m.T, nil)
+	}
 	fx.mapSet(st, mt, m.T, k.T, v.T)
 }
 
